@@ -285,3 +285,37 @@ Proof.
   - unfold all_ids in *. cbn in *. rewrite flat_map_app. cbn. now rewrite app_nil_r.
   - unfold all_ids in *. cbn in *. rewrite flat_map_app. cbn. now rewrite app_nil_r.
 Qed.
+
+(* ------------------------------------------------------------------ *)
+(* conversely: the DESIGN.md 3.2 clauses (plus "0 is not a node") give WF, so [WF] is exactly
+   that formulation *)
+Lemma idx_flat_nodup : forall ix, NoDup (map fst ix) -> Forall (fun e => NoDup (snd e)) ix -> NoDup (idx_flat ix).
+Proof.
+  induction ix as [|[e l] ix IH]; intros K G; [constructor|]. cbn [map fst] in K.
+  inversion K as [|x xs Hx K' E]; subst. inversion G as [|y ys G1 G2]; subst. cbn [snd] in G1.
+  change (idx_flat ((e, l) :: ix)) with (map (fun n => (n, e)) l ++ idx_flat ix).
+  apply NoDup_app_intro; [|now apply IH|].
+  - clear -G1. induction G1 as [|n l Hn G1 IH]; [constructor|]. cbn. constructor; [|assumption].
+    intros X. apply in_map_iff in X. destruct X as (m & E & Hm). injection E as ->. contradiction.
+  - intros [n d] H1 H2. apply in_map_iff in H1. destruct H1 as (m & E & _). injection E as _ <-.
+    apply Hx. unfold idx_flat in H2. apply in_flat_map in H2. destruct H2 as (e' & He' & H2).
+    apply in_map_iff in H2. destruct H2 as (m' & E' & _). injection E' as _ <-. apply in_map_iff. now exists e'.
+Qed.
+
+Theorem WF_of_spelled t :
+  NoDup (ids (forest_of t)) -> ~ In 0 (ids (forest_of t)) ->
+  Permutation (reg t) (ids (forest_of t)) ->
+  NoDup (map fst (idx t)) ->
+  Forall (fun e => snd e <> [] /\ NoDup (snd e)) (idx t) ->
+  (forall n d, In n (idx_get d (idx t)) <-> In (n, d) (keys (forest_of t))) ->
+  sib_unique (forest_of t) ->
+  WF t.
+Proof.
+  intros H1 H2 H3 H4 H5 H6 H7. constructor; try assumption.
+  - eapply Forall_impl; [|exact H5]. cbn. intros e [X _]. exact X.
+  - apply NoDup_Permutation.
+    + apply idx_flat_nodup; [assumption|]. eapply Forall_impl; [|exact H5]. cbn. intros e [_ X]. exact X.
+    + now apply NoDup_keys.
+    + intros [n d]. rewrite <- (idx_get_flat _ d n H4). apply H6.
+  - now apply SU_sib_unique.
+Qed.
